@@ -26,7 +26,7 @@
 #endif
 
 #ifdef __SSE4_2__
-    #define AVEL_SSE4_1
+    #define AVEL_SSE4_2
 #endif
 
 #ifdef __AVX__
